@@ -373,6 +373,25 @@ def make_cases(ctx):
                           {'cls': 'ReplaceOut', 'meth': 'ar', 'args': [{'p': 0, 'pick': 0, 'need': 'raw'}, {'v': 0, 'single': 1}]},
                           {'cls': 'LocalIn', 'meth': 'ar', 'args': [{'k': 1}, {'k': 0}]},
                           {'cls': 'XOut', 'meth': 'ar', 'args': [{'k': 0}, {'k': 0}, {'v': 1, 'single': 1}]}]})
+    # every operator of the unary and of the binary table (indices are taken modulo the length of the
+    # library's own tables at run time), on ar and kr signals, read back by the library's reader
+    idxs = list(range(0, 64))
+    rng.shuffle(idxs)
+    per = ctx.n(8, 4)
+    for j in range(0, len(idxs), per):
+        body = [{'cls': 'SinOsc', 'meth': 'ar', 'args': [{'p': 0, 'pick': 0}, {'k': 0}]},
+                {'cls': 'LFSaw', 'meth': 'kr', 'args': [{'k': 0.5}, {'k': 0}]}]
+        for i_ in idxs[j:j + per]:
+            body.append({'op': 'unidx', 'idx': i_, 'a': {'v': rng.choice([0, 1]), 'single': 1}})
+            body.append({'op': 'binidx', 'idx': i_, 'a': {'v': rng.randrange(len(body)), 'single': 1},
+                         'b': {'v': rng.choice([0, 1]), 'single': 1}})
+        body.append({'op': 'sum', 'a': {'l': [{'v': q, 'single': 1} for q in range(2, len(body))]}})
+        body.append({'cls': 'Out', 'meth': 'ar', 'args': [{'p': 1, 'pick': 0, 'need': 'raw'}, {'v': len(body) - 1, 'need': 'audio'}]})
+        add('ops', {'name': 'ops%d' % j, 'params': [{'name': 'freq', 'default': [220, 330], 'annot': None},
+                                                    {'name': 'out', 'default': 0, 'annot': None},
+                                                    {'name': 'gate', 'default': 1, 'annot': None}],
+                    'variants': None, 'body': body, 'base': False})
+
     # wide units: more than 255 outputs / inputs on one unit
     add('wide', {'name': 'w1', 'params': [{'name': 'arr', 'default': [float(i) for i in range(300)], 'annot': None},
                                           {'name': 'out', 'default': 0, 'annot': 'ir'}],
@@ -611,6 +630,44 @@ def c_desc(d):
         clist(d['ins'], io), clist(d['outs'], io))
 
 
+def c_libops(recon):
+    """operators of the units rebuilt by the library reader (None: the reader raised)."""
+    if recon is None:
+        return 'None'
+    return '(Some %s)' % clist([copt(u[5], cb) for u in recon])
+
+
+def recon_mismatch(o):
+    """the units the library reader rebuilds from the emitted bytes against the live units (Python level)."""
+    if o.get('recon') is None:
+        if o.get('desc') is None and not o.get('recon_exc'):
+            return None
+        return 'raised %s' % (o.get('recon_exc') or o.get('desc_exc'),)
+    truth = o.get('truth') or []
+    if len(truth) != len(o['recon']):
+        return 'rebuilt %d units from %d' % (len(o['recon']), len(truth))
+    names = ['scalar', 'control', 'audio', 'demand']
+    for pos, (t, r) in enumerate(zip(truth, o['recon'])):
+        cls_, rate, special, ins, nch, oper = r
+        if cls_ != t[0]:
+            return 'rebuilt unit %d as %r instead of %r' % (pos, cls_, t[0])
+        if rate != names[t[1]]:
+            return 'rebuilt unit %d (%s) with rate %r instead of %r' % (pos, cls_, rate, names[t[1]])
+        if nch is not None and nch != len(t[3]):
+            return 'rebuilt unit %d (%s) with %d channels instead of %d' % (pos, cls_, nch, len(t[3]))
+        if len(ins) != len(t[2]):
+            return 'rebuilt unit %d (%s) with %d inputs instead of %d' % (pos, cls_, len(ins), len(t[2]))
+        for a, b in zip(ins, t[2]):
+            want = ['c', o['truthk'][b[1]]] if b[0] == -1 else ['u', b[0], b[1]]
+            if a != want:
+                return 'rebuilt unit %d (%s) with input %r instead of %r' % (pos, cls_, a, want)
+        if t[5] is not None and oper != t[5]:
+            return 'rebuilt operator unit %d (%s, special index %d) with operator %r instead of %r' % (pos, cls_, t[4], oper, t[5])
+        if nch is None and special != t[4]:
+            return 'rebuilt unit %d (%s) with special index %r instead of %r' % (pos, cls_, special, t[4])
+    return None
+
+
 def c_names3(n3):
     return clist(['(%s, %s, %s)' % (cb(n), cz(i), cz(ch)) for n, i, ch in n3])
 
@@ -641,6 +698,7 @@ STAGE = {1: 'the real bytes do not parse completely as one SCgf-2 definition (mo
          8: 'SynthDesc.def_name_from_bytes and the model disagree on the definition name',
          9: 'the parsed units / constants differ from what the live unit objects say (class, rate number, inputs as (unit, output) or constant index, output rates, special index, in order)',
          10: 'the definition name in the bytes is not the name the SynthDef was given',
+         11: 'the operators the library reader gives to the Unary/BinaryOpUGen units it rebuilds differ from the operator tables (or it raised on them)',
          7: 'the description read back from the bytes does not recover the declared parameters (name / slot / rate / default values / gate flag)'}
 
 SIGS = {'variant': 'C02:variant-count-without-variants', 'seq': 'C02:sequence-input-bytes', 'bus0': 'C02:iodesc-bus-zero'}
@@ -669,6 +727,8 @@ def correspond(ctx):
                 outs[i + j * nproc] = o
 
     bus0_reported = set()
+    opseen = set()
+    reader_reported = set()
     bus0_fail = []
     items, item_case = [], []       # check_case items (real bytes)
     eitems, eitem_case = [], []     # check_expect items (writer guard: names / variants)
@@ -686,6 +746,9 @@ def correspond(ctx):
             c.count('bytes:%s' % ('<1k' if len(b) < 1024 else '<8k' if len(b) < 8192 else '8k+'))
             if any(w for _, w in o['order']):
                 c.count('has-width-first')
+            for t_ in o.get('truth') or []:
+                if t_[0] in ('UnaryOpUGen', 'BinaryOpUGen') and o.get('recon') is not None:
+                    opseen.add((t_[0], t_[4]))
             if o['desc'] and o['desc']['gate']:
                 c.count('has-gate')
             if o['desc'] and (o['desc']['ins'] or o['desc']['outs']):
@@ -717,10 +780,17 @@ def correspond(ctx):
             fn = 'check_case_light' if light else 'check_case'
             if light:
                 decl = clist(['(%s, %s, %s, [])' % (cb(n), cz(i), cz(r)) for n, i, r, ws in o.get('decl', [])])
-            items.append('(' + fn + ' %s %s %s %s %s %s %s %s %s %s)' % (
+            items.append('(' + fn + ' %s %s %s %s %s %s %s %s %s %s %s)' % (
                 cb(b), c_order(o['order']), 'None' if light else c_desc(o['desc']), c_names3(o['names3']),
                 c_vsrc(k.get('variants')), decl, copt(o.get('defname'), cb), cb(k['name']), truth,
-                clist(o.get('truthk', []), cz)))
+                clist(o.get('truthk', []), cz), c_libops(o.get('recon'))))
+            bad_r = recon_mismatch(o)
+            if bad_r:
+                c.failures.append(Failure(
+                    'correspondence', 'definition %r: the library reader, applied to the bytes the library emitted, %s' % (k['name'][:30], bad_r),
+                    found_input=True, theorem='reader_recovers',
+                    replay={'case': short(k), 'bytes': o['bytes'], 'observed': bad_r}))
+                reader_reported.add(idx)
             item_case.append(idx)
             if o['nunits'] >= 2:
                 c.nontriv((k['name'], o['bytes'][:4000]))
@@ -806,6 +876,8 @@ def correspond(ctx):
             continue
         if idx in bus0_reported and len(bus0_reported) > 3:
             continue                  # same finding, already reported with its own message
+        if idx in reader_reported:
+            continue
         rc, out = ctx.coq('diag', HEADER + 'Eval vm_compute in %s.\n' % items[i], timeout=300)
         import re
         m = re.search(r'=\s*(\d+)', out)
@@ -818,7 +890,7 @@ def correspond(ctx):
             'definition %r (%d units, %d bytes%s): %s; independent reader: %s' % (
                 k['name'], o['nunits'], len(b), (', variants=%r' % (k['variants'],)) if k.get('variants') else '',
                 STAGE.get(stage, 'stage %s' % stage), why or 'accepts the bytes'),
-            signature=sig, found_input=(stage in (1, 2, 4, 7, 9, 10) or why is not None), theorem='scgf_roundtrip' if stage == 1 else None,
+            signature=sig, found_input=(stage in (1, 2, 4, 7, 9, 10, 11) or why is not None), theorem='scgf_roundtrip' if stage == 1 else None,
             replay={'case': short(k), 'bytes': o['bytes'], 'stage': stage, 'order': o['order'], 'libdesc': o['desc'],
                     'libdesc_exc': o['desc_exc'], 'independent_reader': why}))
     for i in bad2[:12]:
@@ -844,6 +916,8 @@ def correspond(ctx):
         seen.add(f.signature)
     c.failures = first + rest
 
+    c.count('distinct-unary-operators-read-back', len([1 for a_, _ in opseen if a_ == 'UnaryOpUGen']))
+    c.count('distinct-binary-operators-read-back', len([1 for a_, _ in opseen if a_ == 'BinaryOpUGen']))
     nbridge = bridge_correspond(ctx, c)
     nsyn = synthetic_correspond(ctx, c)
     nhash = hashseed_correspond(ctx, c, cases, outs)
@@ -875,6 +949,19 @@ SYN_CTL = ['Control', 'TrigControl', 'LagControl', 'AudioControl']
 SYN_WORDS = [0, 0x80000000, 0x3f800000, 0x43dc0000, 0x7f800000, 0xff800000, 1, 0x00800000, 0x7f7fffff, 0xbf000000]
 
 
+_OPTABS = []
+
+
+def OPTABS():
+    """(unary names, binary names) read from the tree under test (sc3/synth/_specialindex.py)."""
+    if not _OPTABS:
+        import ast
+        from translator import t_opcodes
+        tree = ast.parse(open(os.path.join(fw.REPO, 'sc3/synth/_specialindex.py')).read())
+        _OPTABS.extend([[r[0] for r in t_opcodes._table(tree, '_unops_list')], [r[0] for r in t_opcodes._table(tree, '_binops_list')]])
+    return _OPTABS
+
+
 def gen_struct(rng):
     name = ascii_name(rng, rng.choice([0, 1, 2, 5, 31, 127, 128, 255]))
     consts = [rng.choice(SYN_WORDS) for _ in range(rng.choice([0, 1, 2, 5, 9]))]
@@ -898,7 +985,7 @@ def gen_struct(rng):
         multi[len(units) - 1] = n
         pos += n
     for _ in range(rng.choice([0, 1, 3, 6, 12])):
-        kind = rng.choice(['plain', 'plain', 'multi', 'in', 'out'])
+        kind = rng.choice(['plain', 'plain', 'multi', 'in', 'out', 'unop', 'binop'])
 
         def wire():
             if consts and (not units or rng.random() < 0.35):
@@ -909,9 +996,11 @@ def gen_struct(rng):
             if units[u]['nouts'] == 0:
                 return [-1, rng.randrange(len(consts))] if consts else None
             return [u, rng.randrange(multi[u]) if u in multi else 0]
-        nin = rng.choice([1, 2, 3, 4, 5])
+        nin = {'unop': 1, 'binop': 2}.get(kind) or rng.choice([1, 2, 3, 4, 5])
         ins = [w for w in (wire() for _ in range(nin)) if w is not None]
-        if kind == 'plain':
+        if kind in ('unop', 'binop'):
+            u = {'cls': 'UnaryOpUGen' if kind == 'unop' else 'BinaryOpUGen', 'nouts': 1}
+        elif kind == 'plain':
             u = {'cls': rng.choice(SYN_PLAIN), 'nouts': 1}
         elif kind == 'multi':
             u = {'cls': rng.choice(SYN_MULTI), 'nouts': rng.choice([1, 2, 3, 6, 130, 300])}
@@ -925,6 +1014,11 @@ def gen_struct(rng):
         u['ins'] = ins
         # special index: its own value, negative and > 127 included (signed 16 bit field)
         u['special'] = rng.choice([0, 1, 7, 46, 127, 128, 255, 256, 32767, -1, -2, -32768, 9])
+        if kind in ('unop', 'binop'):
+            # the whole range of the operator table, its last entries and (rarely) just beyond it
+            n = len(OPTABS()[0 if kind == 'unop' else 1])
+            u['special'] = rng.choice([0, 1, n - 1, n - 2, rng.randrange(n), rng.randrange(n), rng.randrange(n)]
+                                      + ([n, n + 6] if rng.random() < 0.15 else []))
         units.append(u)
         if kind in ('multi', 'in'):
             multi[len(units) - 1] = u['nouts']
@@ -969,7 +1063,8 @@ def c_sdef(S):
 
 
 RATE_NAMES = ['scalar', 'control', 'audio', 'demand']
-SYN_STAGE = {1: 'the model parser does not return the structure the bytes were made from (or accepts damaged bytes)',
+SYN_STAGE = {11: 'the operators the library reader gives to rebuilt Unary/BinaryOpUGen units differ from the operator tables',
+             1: 'the model parser does not return the structure the bytes were made from (or accepts damaged bytes)',
              3: 'the model writer does not reproduce the hand-made bytes', 5: 'SynthDesc reader <> read_desc on hand-made bytes',
              8: 'def_name_from_bytes <> def_name_of on hand-made bytes'}
 
@@ -983,7 +1078,7 @@ def syn_field_mismatch(S, o):
     if len(o['units']) != len(S['units']):
         return '%d units read back from %d' % (len(o['units']), len(S['units']))
     for pos, (u, r_) in enumerate(zip(S['units'], o['units'])):
-        cls_, rate, special, ins, nch = r_
+        cls_, rate, special, ins, nch = r_[:5]
         want_ins = [['c', S['consts'][b_]] if a == -1 else ['u', a, b_] for a, b_ in u['ins']]
         if cls_ != u['cls']:
             return 'unit %d class %r read back as %r' % (pos, u['cls'], cls_)
@@ -991,6 +1086,11 @@ def syn_field_mismatch(S, o):
             return 'unit %d rate %d read back as %r' % (pos, u['rate'], rate)
         if special != u['special'] and u['cls'] not in tuple(SYN_MULTI) + tuple(SYN_IN):
             return 'unit %d (%s) special index %d read back as %r' % (pos, u['cls'], u['special'], special)
+        if u['cls'] in ('UnaryOpUGen', 'BinaryOpUGen'):
+            tab = OPTABS()[0 if u['cls'] == 'UnaryOpUGen' else 1]
+            if 0 <= u['special'] < len(tab) and r_[5] != tab[u['special']]:
+                return 'unit %d (%s) special index %d rebuilt with operator %r instead of %r' % (
+                    pos, u['cls'], u['special'], r_[5], tab[u['special']])
         if nch is not None and nch != len(u['outs']):
             return 'unit %d has %d outputs, %r read back' % (pos, len(u['outs']), nch)
         if ins != want_ins:
@@ -1016,7 +1116,8 @@ def synthetic_correspond(ctx, c):
     items = []
     for S, b, od, o in zip(structs, blobs, ods, outs):
         c.count('synthetic:' + ('intact' if od else 'damaged') + ':' + ('lib-accepts' if o['desc'] else 'lib-raises'))
-        items.append('(synth_check %s %s %s %s)' % (cb(b), copt(od, c_sdef), c_desc(o['desc']), copt(o.get('defname'), cb)))
+        items.append('(synth_check %s %s %s %s %s)' % (cb(b), copt(od, c_sdef), c_desc(o['desc']), copt(o.get('defname'), cb),
+                                                     c_libops(o.get('units'))))
         if od and o['desc']:
             c.nontriv(('syn', b.hex()[:3000]))
         if o.get('leak'):
@@ -1067,7 +1168,7 @@ def synthetic_correspond(ctx, c):
             'accepts' if outs[i]['desc'] else outs[i]['exc'],
             ' (an In/Out unit on a zero constant bus is described with starting channel \'?\')' if zero_bus else ''),
             signature=SIGS['bus0'] if zero_bus else None,
-            found_input=(stage in (5, 8)), replay={'bytes': blobs[i].hex(), 'struct': structs[i], 'damaged': ods[i] is None,
+            found_input=(stage in (5, 8, 11)), replay={'bytes': blobs[i].hex(), 'struct': structs[i], 'damaged': ods[i] is None,
                                                    'libdesc': outs[i]['desc'], 'libexc': outs[i]['exc'], 'stage': stage}))
     return len(blobs)
 
